@@ -110,18 +110,17 @@ Definition operand_load (o : opnd) (out_bits : Z) : res expr :=
   | OImm64 v sh => maybe_shift (expr_const v 64) sh out_bits
   | OShiftReg r sh => v <- reg_get r ;; shift_ v sh out_bits
   | OLabel v => Ok (expr_const v 64)
-  | _ => Panic                                             (* unreachable!("Memory operand is unexpected here") *)
+  | _ => Err ECustom                                       (* a memory operand where a register or an immediate is expected *)
   end.
 
 (* fn operand_imm_u64 *)
 Definition operand_imm_u64 (o : opnd) : res Z :=
-  match o with OImm32 v None | OImm64 v None => Ok v | _ => Panic end.
+  match o with OImm32 v None | OImm64 v None => Ok v | _ => Err ECustom end.
 
 (* fn operand_store *)
 Definition operand_store (o : opnd) (value : expr) : res operation :=
   match o with
   | OReg r => reg_set r value
-  | OShiftReg _ _ | OImm32 _ _ | OImm64 _ _ => Panic
   | _ => Err ECustom
   end.
 
@@ -129,7 +128,6 @@ Definition operand_store (o : opnd) (value : expr) : res operation :=
 Definition operand_storing_width (o : opnd) : res Z :=
   match o with
   | OReg r => Ok (reg_bits r)
-  | OShiftReg _ _ | OImm32 _ _ | OImm64 _ _ => Panic
   | _ => Err ECustom
   end.
 
@@ -148,7 +146,7 @@ Definition mem_operand_address (o : opnd) : res (expr * option (areg * expr)) :=
       o0 <- reg_get ro ;;
       o1 <- (match sh with Some s => shift_ o0 s 64 | None => Ok o0 end) ;;
       a <- unwrap (mk_bin Add b o1) ;; Ok (a, None)
-  | _ => Panic                                             (* unreachable!("Memory operand is expected here") *)
+  | _ => Err ECustom                                       (* not a memory operand (LDR literal's label) *)
   end.
 
 (* MemOperandSideeffect::apply *)
@@ -336,7 +334,7 @@ Definition b_cbtb (addr : Z) (branch_if_zero test_bit : bool) (ops : list opnd) 
   value <- operand_load o0 bits ;;
   value' <- (if test_bit then
                ob <- nth_op ops 1 ;; bit <- operand_imm_u64 ob ;;
-               if bits <=? bit then Panic                     (* assert!(bit < bits) *)
+               if bits <=? bit then Err ECustom
                else unwrap (mk_bin And value (expr_const (2 ^ bit) bits))
              else Ok value) ;;
   ct <- unwrap (mk_bin Cmpneq value' (expr_const 0 bits)) ;;
@@ -502,10 +500,26 @@ Definition terminating (m : mnem) : bool :=
 
 (* translate_block on the single word at [addr]: the instruction graph's operations and the block's
    successors (a non-terminating instruction falls through to addr + 4) *)
+(* BlockTranslationResult::new -> merge_successors: successors naming the same address are merged
+   into one whose guard is the disjunction (an unguarded one wins) *)
+Fixpoint merge_into (merged : list (Z * option expr)) (a : Z) (c : option expr) : list (Z * option expr) :=
+  match merged with
+  | [] => [(a, c)]
+  | (a', c') :: t =>
+      if a' =? a
+      then (a', match c', c with
+                | Some l, Some r => match mk_bin Or l r with Ok e => Some e | _ => Some l end
+                | _, _ => None
+                end) :: t
+      else (a', c') :: merge_into t a c
+  end.
+Definition merge_successors (l : list (Z * option expr)) : list (Z * option expr) :=
+  fold_left (fun m s => merge_into m (fst s) (snd s)) l [].
+
 Definition lift (addr : Z) (i : instr) : res built :=
   let '(m, ops) := operands_of addr i in
   b <- dispatch addr m ops ;;
-  Ok (fst b, if terminating m then snd b else [(addr + 4, None)]).
+  Ok (fst b, merge_successors (if terminating m then snd b else [(addr + 4, None)])).
 
 (* the instruction graph translate_block pushes: one block, instruction indices 0.., every
    instruction addressed (ControlFlowGraph::set_address), entry = exit = block 0 *)
